@@ -221,8 +221,8 @@ Section TypesWithRec.
         ret (Node KAstParameterDeclaration (tval id) raw (mkRange p (rend (nrange ty)))
                   [(K_ident, AT id); (K_value, opt_toks m)] [ty])
     | None =>
-        (* range ends at the START of the name: Range{start: pos, end: ident_token.get_pos()} *)
-        ret (Node KAstParameterDeclaration (tval id) raw (mkRange p (tpos id))
+        (* without a type the declaration ends where its name ends *)
+        ret (Node KAstParameterDeclaration (tval id) raw (mkRange p (rend (trange id)))
                   [(K_ident, AT id); (K_value, opt_toks m)] [])
     end.
 
